@@ -448,3 +448,27 @@ def greedy_aligned(t, v):
     offs, total = field_offsets(t, v)
     unpadded = offs[-1] + len(enc(t.fields[-1].ty, v[t.fields[-1].name], '<'))
     return unpadded % A(t) == 0 and greedy_aligned(t.fields[-1].ty, v[t.fields[-1].name])
+
+
+# --------------------------------------------------------------------------- C04/C05/C08: the model's padding representation
+# prophyc publishes, per struct member j, a `padding` that its generators replay after the member:
+#   padding >= 0: advance by that many bytes;  padding < 0: align the cursor to -padding.
+# The documented layout determines it: with effective member alignments a[j] (block-bumped per
+# "Fields following dynamic fields"), static sizes s[j] and value-dependence flags d[j]:
+
+def off_static_step(off, a_k, s_k):
+    """static running offset after member k: members are laid out back to back, each aligned"""
+    return rup(off, a_k) + s_k
+
+
+def pad_inner(off_next_start, a_j, d_j, a_next, static_pad):
+    """padding recorded on member j (not the last): a value-dependent member followed by a more
+    aligned block must be aligned at run time; otherwise the static distance applies"""
+    return -a_next if (d_j and a_j < a_next) else static_pad
+
+
+def pad_last(any_dynamic, a_last, s_last, struct_alignment, static_pad):
+    """padding recorded on the last member: every composite's size is a multiple of its alignment"""
+    if any_dynamic:
+        return -struct_alignment if (a_last < struct_alignment or s_last % struct_alignment != 0) else 0
+    return static_pad
